@@ -90,6 +90,42 @@ mod verif_kani_strings {
         core::mem::forget(r);
     }
 
+    // the accepting half of escape-seq-char, letter by letter (concrete first byte: CBMC follows
+    // one dispatch arm; the symbolic version above crashes on the error arm): each of the seven
+    // one-letter escapes decodes to its O-esc value and consumes exactly one byte
+    fn escape_letter(b: u8) {
+        let next: u8 = kani::any();
+        kani::assume(next < 0x80);
+        let buf = [b, next];
+        let mut input = match input_of(&buf) {
+            Some(i) => i,
+            None => return,
+        };
+        let r = escape_seq_char(&mut input);
+        match (&r, o_esc::escape_value(b)) {
+            (Ok(c), Some(w)) => {
+                assert!(*c == w, "escape decodes to the wrong character");
+                assert!(input.eof_offset() == 1, "escape consumed the wrong number of bytes");
+            }
+            _ => assert!(false, "a defined escape letter is rejected"),
+        }
+        kani::cover!(r.is_ok());
+        core::mem::forget(r);
+    }
+
+    #[kani::proof]
+    #[kani::unwind(12)]
+    #[kani::stub(alloc::fmt::format, stub_format)]
+    fn k5_escape_letters() {
+        escape_letter(b'b');
+        escape_letter(b'f');
+        escape_letter(b'n');
+        escape_letter(b'r');
+        escape_letter(b't');
+        escape_letter(b'\\');
+        escape_letter(b'"');
+    }
+
     fn hexescape_check<const N: usize, const M: usize>() {
         // M == N + 1: N candidate digits and one byte of lookahead
         let buf: [u8; M] = kani::any();
